@@ -12,6 +12,7 @@ positionally, by keywords in random order (with ignored extra keywords), and mal
 positionals, missing or foreign keyword, both kinds): value or exception class against the model, and the
 values against an independent evaluation (python sorted + sympy subs)."""
 import warnings
+import numpy as np
 from fractions import Fraction
 import kv, algs, opcorr as oc
 
@@ -256,6 +257,31 @@ def run(R, tier):
             if abs(g - w) > 1e-9 * max(1.0, abs(w)):
                 viol('subst-subs', f'{op} with coefficients {f1} and {f2} in Algebra(sig={list(alg.signature)}): blade {k} evaluates to {g} at t = {tv}, u = {uv} after operating symbolically, '
                                    f'operating on the numbers gives {w} (the simplification rewrote a coefficient to a different function)', op=op, f=[str(f1), str(f2)], t=str(tv))
+                break
+    # one argument an array of values, another a (large) python int: the call gives what numeric operands holding those values give
+    for it in range(4 if tier == 'quick' else 40):
+        d = rng.choice((2, 3))
+        alg = algs.make_impl({'sig': [rng.choice((1, -1)) for _ in range(d)]})
+        a_sym = alg.vector(name='a')
+        t_sym = sympy.Symbol('t')
+        T_ = alg.scalar(e=t_sym)
+        arrs = [np.array([float(rng.randint(-4, 4) or 1) for _ in range(3)]) for _ in range(d)]
+        tv = rng.choice((3, 2 ** 20, 2 ** 40, -3 * 10 ** 12, 2.0 ** 40))
+        A_ = alg.vector(list(arrs)); Tn = alg.scalar(e=tv)
+        for label, symr, numr in (('t * a', T_ * a_sym, Tn * A_), ('t * t * a', T_ * T_ * a_sym, Tn * Tn * A_), ('(t a) (t a)', (T_ * a_sym) * (T_ * a_sym), (Tn * A_) * (Tn * A_))):
+            R.count('array-and-int arguments'); R.case(('arr-int', it, label, repr(tv)), True)
+            vals_ = {f'a{i + 1}': arrs[i] for i in range(d)}
+            names_ = sorted(s_.name for s_ in symr.free_symbols)
+            vals_ = {nm_: (tv if nm_ == 't' else arrs[[str(s_) for s_ in a_sym.values()].index(nm_)]) for nm_ in names_}
+            try:
+                got_ = symr(**vals_)
+                gm = {int(k_): np.asarray(v_, dtype=float) * np.ones(3) for k_, v_ in zip(got_.keys(), got_.values())}
+                wm = {int(k_): np.asarray(v_, dtype=float) * np.ones(3) for k_, v_ in zip(numr.keys(), numr.values())}
+                okk = all(np.allclose(gm.get(k_, np.zeros(3)), wm.get(k_, np.zeros(3)), rtol=1e-12, atol=0) for k_ in set(gm) | set(wm))
+            except Exception as e:  # noqa
+                okk, gm, wm = False, f'{type(e).__name__}: {e}'[:120], None
+            if not okk:
+                viol('subst-call', f'{label} called with arrays for the coefficients of a and t = {tv!r} in Algebra(sig={[int(x_) for x_ in alg.signature]}): {gm}, numeric operands give {wm}', op='gp', t=repr(tv))
                 break
     # argument binding on hand-built expressions
     alg = algs.make_impl({'sig': [1, 1]})
